@@ -119,10 +119,15 @@ func (g *gen) someName(minLabels int) string {
 }
 
 // witnesses builds the signer part of an op line for the accounts whose witness is wanted.
-func (g *gen) witnesses(hs ...string) (sig string, cmt int, caller string) {
+func (g *gen) witnesses(hs ...string) (sig string, cmt string, caller string) {
 	caller = "-"
 	seen := map[string]bool{}
 	var ss []string
+	k := 0
+	kOf := map[string]int{}
+	for kk, h := range g.w.cmtByK {
+		kOf[h] = kk
+	}
 	for _, h := range hs {
 		if h == "" || h == "-" || seen[h] {
 			continue
@@ -131,8 +136,11 @@ func (g *gen) witnesses(hs ...string) (sig string, cmt int, caller string) {
 		switch {
 		case h == g.w.probeHex():
 			caller = h
-		case h == g.w.cmt:
-			cmt = 1
+		case kOf[h] > 0:
+			// a k-of-n account of the committee keys; should several sign, the majority account decides
+			if k == 0 || kOf[h] == g.w.n/2+1 {
+				k = kOf[h]
+			}
 			ss = append(ss, h)
 		default:
 			if _, ok := g.w.users[h]; ok {
@@ -144,14 +152,44 @@ func (g *gen) witnesses(hs ...string) (sig string, cmt int, caller string) {
 	if len(ss) > 0 {
 		sig = strings.Join(ss, ",")
 	}
+	cmt = fmt.Sprintf("%d/%d", k, g.w.n)
 	return
+}
+
+// committee picks the committee account that signs a committee-gated call: mostly the majority account (n/2+1 of
+// n), else half of the committee, majority minus one, majority plus one or a single member.
+func (g *gen) committee() string {
+	n := g.w.n
+	if n == 1 {
+		return g.w.cmt
+	}
+	maj := n/2 + 1
+	k := maj
+	switch r := g.rng.IntN(100); {
+	case r < 62:
+	case r < 80:
+		k = n / 2 // exactly half for even n
+	case r < 88:
+		k = maj - 1
+	case r < 94:
+		k = maj + 1
+	default:
+		k = 1
+	}
+	if k < 1 {
+		k = 1
+	}
+	if k > n {
+		k = n
+	}
+	return g.w.cmtByK[k]
 }
 
 // role picks who signs an operation on a name whose state is ns (parent: the enclosing name's state).
 func (g *gen) role(n string, ns nameSt, extra ...string) []string {
 	owner, admin := hx.Hex(ns.owner), hx.Hex(ns.admin)
 	if owner == "-" {
-		owner = g.w.cmt
+		owner = g.committee()
 	}
 	r := g.rng.IntN(100)
 	var hs []string
@@ -180,12 +218,12 @@ func (g *gen) role(n string, ns nameSt, extra ...string) []string {
 		if p, ok := g.w.prev.names[parentOf(n)]; ok && len(p.owner) == 20 {
 			hs = []string{hx.Hex(p.owner)}
 		} else {
-			hs = []string{g.w.cmt}
+			hs = []string{g.committee()}
 		}
 	case r < 90:
 		hs = []string{g.user()} // possibly a stranger
 	case r < 95:
-		hs = []string{g.w.cmt}
+		hs = []string{g.committee()}
 	case r < 97:
 		hs = []string{owner, g.user()}
 	default:
@@ -196,7 +234,7 @@ func (g *gen) role(n string, ns nameSt, extra ...string) []string {
 
 func (g *gen) line(t uint64, hs []string, ip, recv int, method string, args ...string) string {
 	sig, cmt, caller := g.witnesses(hs...)
-	return fmt.Sprintf("op %d %s %d %s %d %d %s %s", t, sig, cmt, caller, ip, recv, method, strings.Join(args, " "))
+	return fmt.Sprintf("op %d %s %s %s %d %d %s %s", t, sig, cmt, caller, ip, recv, method, strings.Join(args, " "))
 }
 
 func (g *gen) q(t uint64, method string, args ...string) string {
@@ -234,8 +272,18 @@ func (g *gen) recordData(typ int) (string, int) {
 		return strings.Repeat("x", 255), 0
 	case r < 7:
 		return strings.Repeat("y", 256), 0
-	case r < 60:
+	case r < 50:
 		return hx.Pick(g.rng, []string{"one", "two", "three", "deep"}), 0
+	case r < 62:
+		// values shared with the other types: an IPv4/IPv6 string and a domain name are valid TXT data too, and the
+		// lists are distinct per name AND type only
+		switch g.rng.IntN(3) {
+		case 0:
+			return hx.Pick(g.rng, okA), 0
+		case 1:
+			return hx.Pick(g.rng, okAAAA), 0
+		}
+		return g.someName(2), 0
 	}
 	g.nTXT++
 	return fmt.Sprintf("v%d", g.nTXT), 0
@@ -374,7 +422,11 @@ func (g *gen) next() []string {
 		if len(prev.roots) > 0 && g.p(25) {
 			e = 2000 // a TLD that expires early: everything below becomes unreachable
 		}
-		return []string{g.line(t, []string{w.cmt}, 0, 0, "registerTLD", hexs(n), g.email(), "1", "2", fmt.Sprint(e), "4"),
+		signer := w.cmt
+		if g.p(12) {
+			signer = g.committee()
+		}
+		return []string{g.line(t, []string{signer}, 0, 0, "registerTLD", hexs(n), g.email(), "1", "2", fmt.Sprint(e), "4"),
 			g.q(t, "isAvailable", hexs(n)), g.q(t, "roots")}
 	}
 	r := g.rng.IntN(100)
@@ -383,6 +435,12 @@ func (g *gen) next() []string {
 		return g.genRegisterTLD()
 	case r < 8:
 		return g.genDeepConflict()
+	case r < 11:
+		return g.genCrossTypeSet()
+	case r < 13:
+		return g.genAdminAppoints()
+	case r < 16 && g.w.n > 1:
+		return g.genCommitteeGate()
 	case r < 28:
 		return g.genRegister()
 	case r < 36:
@@ -424,7 +482,7 @@ func (g *gen) genRegisterTLD() []string {
 	if g.p(15) {
 		n = hx.Pick(g.rng, []string{"net", "a.com", "0com", "io", "x-y"})
 	}
-	hs := []string{g.w.cmt}
+	hs := []string{g.committee()}
 	if g.p(20) {
 		hs = []string{g.user()}
 	}
@@ -677,7 +735,7 @@ func (g *gen) genDeleteRecords() []string {
 
 func (g *gen) genSetPrice() []string {
 	t := g.advance()
-	hs := []string{g.w.cmt}
+	hs := []string{g.committee()}
 	if g.p(20) {
 		hs = []string{g.user()}
 	}
@@ -856,7 +914,7 @@ func (g *gen) genRoleMatrix() []string {
 	if p, ok := g.w.prev.names[parentOf(n)]; ok && len(p.owner) == 20 {
 		parentOwner = hx.Hex(p.owner)
 	}
-	roles := [][]string{{stranger}, {pick(g.fOwner[n])}, {pick(g.fAdmin[n])}, {parentOwner}, {g.w.cmt}, nil, {admin}, {owner}}
+	roles := [][]string{{stranger}, {pick(g.fOwner[n])}, {pick(g.fAdmin[n])}, {parentOwner}, {g.committee()}, nil, {admin}, {owner}}
 	method := hx.Pick(g.rng, []string{"addRecord", "setRecord", "deleteRecords", "updateSOA", "renew", "transfer", "setAdmin", "register"})
 	g.nTXT++
 	for i, hs := range roles {
@@ -1046,5 +1104,192 @@ func (g *gen) genDeepConflict() []string {
 		}
 		tryRegister()
 	}
+	return out
+}
+
+// userOwned: registered unexpired names (whole chain) owned by one of the user accounts.
+func (g *gen) userOwned(minLabels int) []string {
+	isUser := map[string]bool{}
+	for _, u := range g.w.uhash {
+		isUser[u] = true
+	}
+	var out []string
+	for _, n := range g.liveNames(minLabels) {
+		if isUser[hx.Hex(g.w.prev.names[n].owner)] {
+			out = append(out, n)
+		}
+	}
+	return out
+}
+
+// genCrossTypeSet: values shared between the types of one name. The name gets an A record, a CNAME and a few TXT
+// records; then setRecord(TXT, i, v) with v the value of the A record / the CNAME / the AAAA record kept at another
+// index (legal: the lists are per type), the same value at the same index, a value of another TXT record (refused)
+// and the mirror image setRecord(A, 0, <a TXT value that is an address>).
+func (g *gen) genCrossTypeSet() []string {
+	cands := g.userOwned(2)
+	if len(cands) == 0 {
+		return g.genRegister()
+	}
+	n := hx.Pick(g.rng, cands)
+	if g.p(25) {
+		n = hx.Pick(g.rng, g.labs) + "." + n // a sub-name kept under the registered name
+	}
+	owner := hx.Hex(g.tokenState(n, g.t+1).owner)
+	count := func(tb int) (vals []string) {
+		for _, r := range g.w.prev.recs {
+			if r.rname == n && r.tb == tb {
+				vals = append(vals, string(r.data))
+			}
+		}
+		return
+	}
+	var out []string
+	add := func(typ int, v string, ip int) {
+		out = append(out, g.line(g.advance(), []string{owner}, ip, 0, "addRecord", hexs(n), fmt.Sprint(typ), hexs(v)))
+	}
+	ipv, ip6, alias := hx.Pick(g.rng, okA), hx.Pick(g.rng, okAAAA), hx.Pick(g.rng, []string{"alias.com", "a.com", "b.org"})
+	as, cs, ts, a6 := count(typA), count(typCNAME), count(typTXT), count(typAAAA)
+	if len(as) == 0 {
+		add(typA, ipv, 1)
+	} else {
+		ipv = as[0]
+	}
+	if len(cs) == 0 && g.p(70) {
+		add(typCNAME, alias, 0)
+	} else if len(cs) > 0 {
+		alias = cs[0]
+	}
+	if len(a6) == 0 && g.p(50) {
+		add(typAAAA, ip6, 1)
+	} else if len(a6) > 0 {
+		ip6 = a6[0]
+	}
+	nt := len(ts)
+	for nt < 3 {
+		g.nTXT++
+		add(typTXT, fmt.Sprintf("x%d", g.nTXT), 0)
+		nt++
+	}
+	set := func(typ int, id int, v string, ip int) {
+		out = append(out, g.line(g.advance(), []string{owner}, ip, 0, "setRecord", hexs(n), fmt.Sprint(typ), fmt.Sprint(id), hexs(v)))
+		out = append(out, g.q(g.t, "getRecords", hexs(n), fmt.Sprint(typ)))
+	}
+	shared := []string{ipv, alias, ip6}
+	g.rng.Shuffle(len(shared), func(i, j int) { shared[i], shared[j] = shared[j], shared[i] })
+	for k, v := range shared[:2+g.rng.IntN(2)] {
+		set(typTXT, 1+(k+g.rng.IntN(2))%(nt-1), v, 0) // an index different from 0, where the other type keeps the value
+	}
+	set(typTXT, 0, ipv, 0)               // the same index as the A record: accepted as well
+	set(typTXT, 2, ipv, 0)               // now another TXT record holds it (index 0): refused … unless it is index 2 itself
+	set(typA, 0, hx.Pick(g.rng, okA), 1) // replace the A record by another address
+	set(typA, 0, ipv, 1)                 // and back: TXT records hold the same text, which does not matter
+	out = append(out, g.q(g.t, "getAllRecords", hexs(n)), g.q(g.t, "resolve", hexs(n), fmt.Sprint(typTXT)))
+	return out
+}
+
+// genAdminAppoints: "only the owner can … together with the new admin, appoint an admin". On a name whose admin
+// differs from the owner, the admin tries to hand the role on (admin + new admin sign), to drop it (admin alone), to
+// re-appoint itself; the same after a transfer to a new owner who appointed a new admin; finally the owner does it.
+func (g *gen) genAdminAppoints() []string {
+	cands := g.userOwned(2)
+	if len(cands) == 0 {
+		return g.genRegister()
+	}
+	n := hx.Pick(g.rng, cands)
+	ns := g.w.prev.names[n]
+	owner := hx.Hex(ns.owner)
+	var others []string
+	for _, u := range g.w.uhash {
+		if u != owner {
+			others = append(others, u)
+		}
+	}
+	g.rng.Shuffle(len(others), func(i, j int) { others[i], others[j] = others[j], others[i] })
+	adm, x, newOwner, adm2 := others[0], others[1], others[2], others[3]
+	var out []string
+	sa := func(hs []string, a string) {
+		out = append(out, g.line(g.advance(), hs, 0, 0, "setAdmin", hexs(n), a))
+	}
+	attempts := func(adm, x string) {
+		sa([]string{adm, x}, x) // the admin hands the role to an accomplice
+		sa([]string{adm}, "-")  // the admin drops the role
+		sa([]string{adm}, adm)  // the admin re-appoints itself
+		if g.p(50) {
+			sa([]string{x}, x) // a stranger appoints itself
+		}
+		out = append(out, g.q(g.t, "properties", hexs(n)))
+	}
+	if a := hx.Hex(ns.admin); a != "-" && a != owner && g.p(60) {
+		adm = a
+		if x == adm {
+			x = others[4%len(others)]
+		}
+	} else {
+		sa([]string{owner, adm}, adm)
+	}
+	attempts(adm, x)
+	if g.p(60) {
+		// over an ownership history: transfer, the new owner appoints its own admin, who tries the same
+		if newOwner == adm {
+			newOwner, adm2 = adm2, newOwner
+		}
+		out = append(out, g.line(g.advance(), []string{owner}, 0, 0, "transfer", newOwner, hexs(n)))
+		if adm2 == newOwner {
+			adm2 = adm
+		}
+		sa([]string{newOwner, adm2}, adm2)
+		y := owner // the former owner as accomplice
+		attempts(adm2, y)
+		sa([]string{newOwner, y}, y) // the owner may
+	} else {
+		sa([]string{owner, x}, x)
+	}
+	out = append(out, g.q(g.t, "properties", hexs(n)))
+	return out
+}
+
+// genCommitteeGate (committees of more than one member): every committee-gated method — registerTLD, setPrice,
+// renew and updateSOA of a TLD — called in turn by the signer classes single member, half of the committee,
+// majority minus one, majority plus one and finally the majority account n/2+1 of n, which alone must pass.
+func (g *gen) genCommitteeGate() []string {
+	n := g.w.n
+	maj := n/2 + 1
+	ks := []int{1, n / 2, maj - 1, maj + 1, maj}
+	var out []string
+	tldLive := ""
+	for _, r := range g.w.prev.roots {
+		if liveAt(g.w.prev, r, new(big.Int).SetUint64(g.t+1000)) {
+			tldLive = r
+		}
+	}
+	methods := []string{"registerTLD", "setPrice", "renew", "updateSOA"}
+	g.rng.Shuffle(len(methods), func(i, j int) { methods[i], methods[j] = methods[j], methods[i] })
+	g.nTXT++
+	for _, m := range methods[:2+g.rng.IntN(3)] {
+		if (m == "renew" || m == "updateSOA") && tldLive == "" {
+			continue
+		}
+		seen := map[int]bool{}
+		for _, k := range ks {
+			if k < 1 || k > n || seen[k] {
+				continue
+			}
+			seen[k] = true
+			hs := []string{g.w.cmtByK[k]}
+			t := g.advance()
+			switch m {
+			case "registerTLD":
+				out = append(out, g.line(t, hs, 0, 0, "registerTLD", hexs(fmt.Sprintf("t%d", g.nTXT%50)+"ld"), hexs("e@x"), "1", "2", "315360000", "4"))
+			case "setPrice":
+				out = append(out, g.line(t, hs, 0, 0, "setPrice", fmt.Sprint(1+k)))
+			case "renew":
+				out = append(out, g.line(t, hs, 0, 0, "renew", hexs(tldLive), "1"))
+			case "updateSOA":
+				out = append(out, g.line(t, hs, 0, 0, "updateSOA", hexs(tldLive), hexs("c@x"), fmt.Sprint(30+k), "2", "3", "4"))
+			}
+		}
+	}
+	out = append(out, g.line(g.advance(), []string{g.w.cmt}, 0, 0, "setPrice", "1"), g.q(g.t, "roots"), g.q(g.t, "getPrice"))
 	return out
 }
